@@ -66,6 +66,8 @@ sdp_msg_type_get(uint8_t *sdp_msg, size_t sdp_msg_size, const uint8_t type,
 
 	for (; NULL != val; i ++) {
 		val += 2;
+		if (2 > (size_t)((sdp_msg + sdp_msg_size) - val))
+			break; /* No space for '<type>=': CRLF at the end of message. */
 		if (type == (*val) && '=' == (*(val + 1))) {
 			/* Found! */
 			val += 2;
@@ -128,10 +130,11 @@ sdp_msg_feilds_get(uint8_t *buf, size_t buf_size, size_t max_feilds,
 		feilds[ret] = cur_pos;
 		feilds_sizes[ret] = data_size;
 		ret ++;
+		if (NULL == ptm)
+			break; /* Last feild. */
 
 		/* Move to next arg. */
-		data_size ++;
-		cur_pos += data_size;
+		cur_pos = (ptm + 1);
 	}
 
 	return (ret);
@@ -166,14 +169,16 @@ sdp_msg_sec_chk(uint8_t *sdp_msg, size_t sdp_msg_size) {
 	/* 3, 4. */
 	msg_max = (sdp_msg + sdp_msg_size);
 	for (ptm = sdp_msg; ptm < msg_max; ptm ++) {
-		if ((*ptm) > 31 || (*ptm) == '\t') /* XXX: tab? */
-			continue;
 		if ((*ptm) > 126)
 			return (3); /* Control codes. */
+		if ((*ptm) > 31 || (*ptm) == '\t') /* XXX: tab? */
+			continue;
 		if ((*ptm) != '\r' || ((ptm + 1) < msg_max && (*(ptm + 1)) != '\n'))
 			return (3); /* Control codes. */
 		ptm ++; /* Skeep: CRLF. (point to LF) */
-		if ((ptm + 2) >= msg_max)
+		if (ptm == msg_max)
+			break; /* CR is last byte. */
+		if (3 > (size_t)(msg_max - ptm))
 			continue;
 		if ('a' > (*(ptm + 1)) || 'z' < (*(ptm + 1)))
 			return (3); /* Control codes / whitespace. */
